@@ -47,7 +47,13 @@ def run(ctx, chk):
     crate = ctx.crate("zvt_feig_terminal")
     zvt = ctx.crate("zvt")
     ZVT_ADTS.update(zvt.adts)
-    n_arms = 0
+    n_arms = n_complete = 0
+    import seqcheck
+    from mirlite import feasible_reach
+    finals = {}
+    for sname, res in seqcheck.run_all(ctx)[0].items():
+        if res.get("final") is not None and res.get("ent"):
+            finals.setdefault(res["ent"]["output"], set()).update(res["final"])
     for name in FUNCS:
         try:
             f = Fn(crate, name)
@@ -58,6 +64,30 @@ def run(ctx, chk):
         if not chk.require(len(sws) >= 1, "C20/reply-match", name,
                            "no match on a reply enum with an abort variant found", "", f.sp()):
             continue
+        # success only when the exchange is complete: from the arm of a reply that does not end the exchange
+        # (Status-Information, Print-Line, ...) an Ok return may only be reached through another poll of the
+        # reply stream - otherwise the Abort that may still follow is never read
+        oks = [rb for rb, e_ in f.ret_writes() if f.classify_ret(e_) == "ok"]
+        polls = [pb for pb, t_ in f.b.calls() if callee(t_) == NEXT]
+        for (bb, enum, targets, else_t, rest, pexpr) in variant_switches(f, zvt.adts):
+            fin = finals.get(enum)
+            if fin is None:
+                continue
+            arms = sorted(targets.items())
+            rest_nf = sorted(v_ for v_ in rest if v_ not in fin and v_ not in ABORT_VARIANTS)
+            if rest_nf and f.b.blocks[else_t]["term"]["t"] != "unreachable":
+                arms.append(("|".join(rest_nf[:3]) + (".." if len(rest_nf) > 3 else ""), else_t))   # the catch-all arm
+            for vname, tgt in arms:
+                if vname in fin or vname in ABORT_VARIANTS:
+                    continue
+                arm = follow(f, tgt)
+                region = feasible_reach(f.b, arm, cut_blocks=polls)
+                early = sorted(set(oks) & region)
+                n_complete += 1
+                chk.require(not early, "C20/success-only-when-complete", "%s/%s::%s" % (name, enum.rsplit("::", 1)[-1], vname),
+                            "success is returned from the arm of %s, a reply that does not end the exchange, without reading on: an "
+                            "Abort that follows it (the normal decline flow) is never seen" % vname,
+                            "Ok only after a final reply or the end of the stream", f.sp(early[0]) if early else f.sp(bb))
         for (bb, enum, targets, else_t, rest, pexpr) in sws:
             for av in ABORT_VARIANTS:
                 if av in targets:
@@ -94,6 +124,7 @@ def run(ctx, chk):
                     "ErrorMessages::from_u8", "FromPrimitive for ErrorMessages is not the derived implementation", "derived",
                     nontrivial=False)
     chk.floor("abort arms analysed", n_arms, 7)
+    chk.floor("non-final reply arms checked for early success", n_complete, 4)
     nested(chk, crate)
 
 
